@@ -165,3 +165,12 @@ Example C16_reputation_order_example :
   fst (rep c 1%Z (0%N, []) (Build_head 5%N (Some [2; 3; 4]%N) [1%N]) 6%N) = Ok 3%N
   /\ fst (rep c 1%Z (0%N, []) (Build_head 5%N (Some [4; 3; 2]%N) [1%N]) 6%N) = Ok 3%N.
 Proof. vm_compute. split; reflexivity. Qed.
+
+(* a limit of what C16 claims for the reputation scheme: 0 ("no answer") is one of its answers -- for old
+   views and when the weighted chooser refuses because every weight uint(reputation*10) is 0 (in Go: fresh
+   reputations and a certificate with a bare quorum for n = 3, 6, 7, 9, 10, ...).  All replicas agree on it;
+   the property text claims a configured id only for the stateless schemes and the carousel. *)
+Example C16_reputation_answers_zero :
+  let rep := reputation 0%Z (fun votes n => 0%Z) Z.add (fun r => Z.to_N (10 * r)) (fun ws _ => None) in
+  fst (rep (Build_config 1%N 7%Z 0%Z None) 1%Z (0%N, []) (Build_head 2%N (Some [1; 2; 3; 4; 5]%N) [2%N; 1%N]) 3%N) = Ok 0%N.
+Proof. vm_compute. reflexivity. Qed.
